@@ -146,9 +146,9 @@ func genCase(t *rapid.T) Case {
 	// longer than the driver's fixed copy latency and than a small copy on
 	// another GPU
 	scratch := -1
-	if dma && rapid.IntRange(0, 5).Draw(t, "scratch") == 0 {
+	if dma && rapid.IntRange(0, 2).Draw(t, "scratch") == 0 {
 		scratch = len(c.Bufs)
-		c.Bufs = append(c.Bufs, Buf{Size: pageSize * rapid.IntRange(96, 192).Draw(t, "scratch-pages"), Dev: rapid.IntRange(1, n).Draw(t, "scratch-gpu")})
+		c.Bufs = append(c.Bufs, Buf{Size: pageSize * rapid.SampledFrom([]int{96, 128, 160, 192, 256, 256, 320}).Draw(t, "scratch-pages"), Dev: rapid.IntRange(1, n).Draw(t, "scratch-gpu")})
 	}
 	// kernels: in timing mode with magic copy every kernel hits finding C11-1
 	// (stores stay in the caches the direct path bypasses), so half of those
@@ -186,10 +186,15 @@ func genCase(t *rapid.T) Case {
 			c.Steps = append(c.Steps, s)
 			// touch the part of it whose lines are written back last while that
 			// flush is the long one
-			r := Step{Kind: rapid.SampledFrom([]string{"d2h", "d2h", "d2h", "h2d"}).Draw(t, "scratch-op"), Q: s.Q, Buf: scratch,
+			r := Step{Kind: rapid.SampledFrom([]string{"d2h", "d2h", "h2d", "h2d"}).Draw(t, "scratch-op"), Q: s.Q, Buf: scratch,
 				Type: rapid.SampledFrom([]string{"u8", "u32", "i64"}).Draw(t, "type")}
 			size, es := c.Bufs[scratch].Size, elemSize[r.Type]
 			back := rapid.IntRange(es, size/2).Draw(t, "scratch-back")
+			if rapid.Bool().Draw(t, "scratch-window-end") {
+				// the lines a set-ordered flush reaches last: the last pages of a 128 KB window
+				w := rapid.IntRange(1, size/(128<<10)).Draw(t, "scratch-window")
+				back = size - w*(128<<10) + rapid.IntRange(es, 6*pageSize).Draw(t, "scratch-window-back")
+			}
 			r.Off = size - back
 			r.Count = rapid.IntRange(1, min(back, 2*pageSize)/es).Draw(t, "scratch-count")
 			if r.Kind == "h2d" {
